@@ -24,6 +24,8 @@ def show_reply(r):
         return "err(%s)" % r.get("e")
     if k in ("nil", "any"):
         return k
+    if k == "structure":
+        return "STRUCTURE VIOLATED: %s" % r.get("e")
     if k == "zwin":
         return "zwin(%s)" % ",".join(show_reply(x) for x in r.get("a", []))
     return "%s(%s)" % (k, repr(b2s(r.get("v") or []))[1:-1])
@@ -89,6 +91,9 @@ def signature(m):
     if got["k"] == "panic":
         kind = "panic"
         detail = got.get("e", "")
+    elif got["k"] == "structure":
+        kind = "structure"
+        detail = re.sub(r'"[^"]*"', "K", got.get("e", "")).split(":")[0][:60]
     else:
         ek = sorted(set(x["r"]["k"] if x["r"]["k"] != "err" else "err:" + x["r"]["e"] for x in exp))
         gk = got["k"] if got["k"] != "err" else "err:" + got.get("e", "")
@@ -255,7 +260,8 @@ def family_check(prop, tier, b1_instances, b2_families, level_text, assumptions,
                            "state_diff": f.get("state_diff")},
                      what="%s: after %s, %s -> %s %s" % (cfg, f.get("path"), f["cmd"], show_reply(f["got"]), f.get("state_diff") or ""))
     for fam in b2_families:
-        r = run_b2(fam, b2_progs, b2_steps, seed, nproc=8)
+        deep = fam == "zsetdeep"   # long programmes on one sorted set: deep AVL trees, structure checked after every command
+        r = run_b2(fam, max(8, b2_progs // 4) if deep else b2_progs, 90 if deep else b2_steps, seed, nproc=8)
         cov["traces_validated_against_impl"] += r["programmes"]
         cov["b2"][fam] = {"programmes": r["programmes"], "events": r["events"], "labels": len(r["labels"]), "mismatching_programmes": len(r["mismatches"])}
         for m, path in r["mismatches"]:
